@@ -30,11 +30,12 @@ def shown_problems(r):
     # what the RENDERED report shows (an enrich call whose end lies before its start leaves nothing behind)
     details = collections.Counter(d for d in (detail_of(x) for x in (r.get("details") or [])) if d is not None)
     need = collections.Counter()
-    for kind, line, col, rule, t, root in facts:
+    for fact in facts:
+        kind, line, col, rule, t, root = fact[:6]
         if rule is not None or t in (None, "inparent"):
             continue
         if kind in DISPLAY_KINDS:
-            need[t] += 1
+            need[t] += (fact[6] if len(fact) > 6 else 1)
         elif root:
             # a direct-cause type error on a node kind without a display branch
             if details.get(t, 0) == 0:
